@@ -759,20 +759,21 @@ Proof.
     destruct (look (a / 5) (s_t st)) as [p|] eqn:L; [|discriminate]. symmetry. apply (TB _ _ L).
 Qed.
 
+Lemma bot_false : forall A st si sb, is_bot st = true -> Rel A st si sb -> False.
+Proof.
+  intros A st si sb H (_ & _ & _ & _ & NZ). unfold is_bot in H. apply existsb_exists in H. destruct H as (p & IN & E).
+  destruct p; [|discriminate]. apply (NZ [] IN). reflexivity.
+Qed.
+
 Lemma nonzero_in_sound : forall A st si sb p, Rel A st si sb -> nonzero_in w st p = true -> ev A p <> 0.
 Proof.
-  intros A st si sb p R H. unfold nonzero_in in H. apply orb_prop in H. destruct H as [H|H].
+  intros A st si sb p R H. unfold nonzero_in in H. apply orb_prop in H. destruct H as [H|H];
+    [apply orb_prop in H; destruct H as [H|H]; [exfalso; exact (bot_false A st si sb H R)|]|].
   - unfold is_nz_const in H. destruct p as [|[c [|v vs]] [|p2 p]]; try discriminate.
     apply negb_true_iff, Z.eqb_neq in H. unfold ev, eval. cbn [fold_left eval_part fst snd]. unfold wadd.
     rewrite Z.add_0_l. exact H.
   - apply existsb_exists in H. destruct H as (q & IN & S). unfold ev. rewrite (tv_same_sound w Hw p q _ S).
     destruct R as (_ & _ & _ & _ & NZ). apply NZ. exact IN.
-Qed.
-
-Lemma bot_false : forall A st si sb, is_bot st = true -> Rel A st si sb -> False.
-Proof.
-  intros A st si sb H (_ & _ & _ & _ & NZ). unfold is_bot in H. apply existsb_exists in H. destruct H as (p & IN & E).
-  destruct p; [|discriminate]. apply (NZ [] IN). reflexivity.
 Qed.
 
 Lemma entails_sound : forall A st si sb f, Rel A st si sb -> entails w st f = true ->
